@@ -22,7 +22,7 @@ REPLAY_DIR = os.path.join(VERIF, "replays")
 KNOWN_FILE = os.path.join(VERIF, "known_findings.json")
 
 MAX_WITNESS_PER_SIG = 3
-SAMPLE_STRIDE = 997
+SAMPLE_STRIDE = 211
 
 
 def h(x):
@@ -50,13 +50,14 @@ class Acc:
         self.caps = set()
         self.notes = set()
         self.harness_errors = []
+        self.maxes = {}
 
     # -- bookkeeping ------------------------------------------------------------------
     def case(self, sample=None, nontrivial_key=None):
         """Count one enumerated case; `sample` is a thunk/value kept on a deterministic stride."""
         self.evaluations += 1
         if sample is not None and len(self.samples) < 4:
-            if (self.evaluations + self.seed) % SAMPLE_STRIDE == 1:
+            if (self.evaluations * 7 + self.seed) % SAMPLE_STRIDE == 5:
                 self.samples.append(sample() if callable(sample) else sample)
         if nontrivial_key is not None:
             self.nontrivial.add(h(nontrivial_key))
@@ -84,6 +85,10 @@ class Acc:
 
     def count(self, name, n=1):
         self.counters[name] += n
+
+    def maxof(self, name, v):
+        if v > self.maxes.get(name, float("-inf")):
+            self.maxes[name] = v
 
     def seen(self, setname, key):
         self.named_sets[setname].add(key)
@@ -132,6 +137,8 @@ class Acc:
         self.notes |= o.notes
         self.harness_errors.extend(o.harness_errors)
         del self.harness_errors[5:]
+        for k, v in o.maxes.items():
+            self.maxof(k, v)
 
 
 # ------------------------------------------------------------------------------------------
@@ -297,6 +304,7 @@ def run_check(modname, tier, seed, procs=None):
         "caps_hit": sorted(acc.caps),
         "raised": dict(acc.raised),
         "counters": {k: v for k, v in sorted(acc.counters.items()) if k != "shard_cpu_s_x1000"},
+        "maxima": dict(sorted(acc.maxes.items())),
         "cpu_s": round(acc.counters["shard_cpu_s_x1000"] / 1000.0, 1),
         "named_set_sizes": {k: len(v) for k, v in sorted(acc.named_sets.items())},
         "known_findings_seen": known_seen,
